@@ -19,6 +19,9 @@
 //!   idrop <slot>                                    drop the future: the span is entered and exited around the inner
 //!                                                   value's drop, then the span itself is dropped
 //!   hbs                                             nothing: only observe has_been_set()
+//!   ltinit <0..5>                                   tracing_log::LogTracer::builder().with_max_level(l).init() — this
+//!                                                   process already has a logger (the recording one), so the call must
+//!                                                   fail and change nothing; reports `lt_err` and `log_max` afterwards
 //!   @<k> ev ... | install <scoped|global> | uninstall | hbs       the same op on WORKER THREAD k (1..3); the main
 //!                                                   thread waits for it to finish (every op is ordered after the last)
 //!   gmid <k> <70|71|72> ev <cs> <vals>              worker k calls set_global_default and stops at the given yield
@@ -419,6 +422,10 @@ fn main() {
                 extra = format!("{},\"paused\":{}{},\"ds\":{}", extra, paused, mid, jstr(&format!("{:?}", v.s)));
             }
             "hbs" => {}
+            "ltinit" => {
+                let r = tracing_log::LogTracer::builder().with_max_level(log_filter_of(t[1].parse().unwrap())).init();
+                extra = format!(",\"lt_err\":{},\"log_max\":{}", r.is_err(), log::max_level() as usize);
+            }
             "insc" => {
                 let slot: usize = t[1].parse().unwrap();
                 match &slots[slot] {
